@@ -4,11 +4,12 @@ EXPLANATION = ("Thin partial claim: the built-in operator fixity table (real OpT
                "(Span::new/to/between/until/with_*/subspan/from_offset, Location::shift; full u32 domain). The shift/reduce resolver, the "
                "layout algorithm, the tokenizer and the grammar are NOT under contract.")
 ASSUMPTIONS = [
-    "OpTable::get is exercised with an empty user-operator map only (hash-map lookups with entries are intractable for CBMC)",
+    "OpTable::get: the built-in table is checked on an empty user map; precedence of user declarations over built-ins is only checked structurally in Verus (C08/infix/OpTable_get): a one-entry FnvMap lookup with a concrete key gave no CBMC result in 600 s, and std HashMap::get could not be stubbed (signature matching failed on the allocator parameter)",
+    "reparse step: `make_op` is an uninterpreted constructor, trees and operator occurrences are opaque; at least two operands are on the stack when an operator is (algorithm invariant, assumed)",
     "spans are well formed (start <= end), the invariant Span::new establishes",
     "termination not proved by Kani",
 ]
-NOT_UNDER_CONTRACT = ["parser/src/infix.rs Reparser::reparse (probed: intractable for CBMC, outside Verus's dialect)", "parser/src/layout.rs layout_next_token",
+NOT_UNDER_CONTRACT = ["parser/src/infix.rs reparse as a whole (the per-operator shift/reduce block IS under contract; the loop, the Infixes iterator, error recovery and the final fold are not: no grouping theorem)", "parser/src/layout.rs layout_next_token",
                       "parser/src/token.rs tokenizer", "parser/src/grammar.lalrpop", "parser/src/lib.rs shrink_hidden_spans"]
 POS = "base/src/pos.rs"
 INFIX = "parser/src/infix.rs"
@@ -37,5 +38,9 @@ def obligations(tier):
         k("gluon_parser", INFIX, "c08__builtin_ops__plain_names_have_no_builtin_fixity", "names without '#' other than && and || have no built-in fixity", [INFIX + "::OpTable::get"]),
         k("gluon_parser", INFIX, "c08__opmeta__new_keeps_fields", "OpMeta::new keeps precedence and fixity", [INFIX + "::OpMeta::new"]),
     ]
+    out += [dict(engine="verus", unit="infix", function="reparse::step", name="C08/infix/reparse_step", source=INFIX + "::reparse (shift/reduce block)",
+                 clause="the shift/reduce step of the operator-precedence re-parse: lower precedence or equal+both-left => reduce (group left), higher or equal+both-right => shift (group right), equal precedence with different associativity => ConflictingFixities error; stacks change exactly accordingly"),
+            dict(engine="verus", unit="infix", function="OpTable::get", name="C08/infix/OpTable_get", source=INFIX + "::OpTable::get",
+                 clause="structure check: user table consulted first, built-in table (closure body, named by an env helper) only when the name is not declared")]
     out += [k("gluon_parser", INFIX, "c08__builtin_ops__" + n, "built-in " + c, [INFIX + "::OpTable::get"]) for n, c in ops]
     return out
